@@ -108,8 +108,9 @@ def _shard(name, shard, nshards, tier, seed):
                     o = mpsgen.rand_mpo(rng, L=int(rng.integers(1, 4)), maxD=int(rng.integers(1, 4)))
                     d = len(o.qd)
                     dg = [[a, b] for a, b in zip(digits_for(rng, d, o.nsites), digits_for(rng, d, o.nsites))]
-                    op = {'op': 'mpo.as_matrix', 'mpo': mpsgen.enc_mp(o), 'digits': dg}
                     sparse = bool(rng.random() < 0.5)
+                    # sparse form vs. model of the sparse path (MPO.asMatrixSparse), dense form vs. dense model
+                    op = {'op': 'mpo.as_matrix', 'mpo': mpsgen.enc_mp(o), 'digits': dg, 'sparse': sparse}
 
                     def f(o=o, dg=dg, sparse=sparse):
                         M = o.as_matrix(sparse_format=sparse)
